@@ -217,6 +217,51 @@ theorem worklist_terminates (sims : List SimCfg) (orc : List Nat) (hS : Shaped s
     ∃ k, ∀ fuel, k ≤ fuel → cycLoop sims fuel (cycInit sims) orc ≠ .error .fuel :=
   cycLoop_terminates hS hU hR (depth_le_sum sims) _ _ (cycInit sims) (cycInit_real sims) rfl rfl orc
 
+/-- the cycle check with the loop's fuel as a parameter (`ensureNoCycles` is the instance `closureFuel n`; the real
+algorithm has no fuel) -/
+def ensureNoCyclesWith (fuel : Nat) (sims : List SimCfg) (orc : List Nat) : CycResult :=
+  match cycLoop sims fuel (cycInit sims) orc with
+  | .error e => .error e
+  | .ok st => match cycFind sims.length st.descs with
+    | some p => .cycle p
+    | none => .ok
+
+theorem ensureNoCycles_eq (sims : List SimCfg) (orc : List Nat) :
+    ensureNoCycles sims orc = ensureNoCyclesWith (closureFuel sims.length) sims orc := rfl
+
+/-- **the cycle check is total and exact** (every pop order): there is an amount of fuel from which on the check answers —
+never an assertion, never "out of fuel" — and rejects exactly the scenarios with a cycle of connections whose accumulated delay
+is all-zero -/
+theorem cycle_check_total_exact (sims : List SimCfg) (orc : List Nat) (hS : Shaped sims) (hN : NodupKeys sims) (hU : Uniform sims)
+    (hR : SrcRange sims) :
+    ∃ k, ∀ fuel, k ≤ fuel →
+      (ensureNoCyclesWith fuel sims orc = .ok ∨ ∃ p, ensureNoCyclesWith fuel sims orc = .cycle p) ∧
+      ((∃ p, ensureNoCyclesWith fuel sims orc = .cycle p) ↔ ∃ s p d, RealPath sims s s p d ∧ d.isZero = true) := by
+  obtain ⟨k, hk⟩ := worklist_terminates sims orc hS hU hR
+  refine ⟨k, fun fuel hf => ?_⟩
+  unfold ensureNoCyclesWith
+  cases hl : cycLoop sims fuel (cycInit sims) orc with
+  | error e =>
+    exfalso
+    cases e with
+    | assertion => exact cycLoop_no_assertion hS hU fuel _ orc (cycInit_real sims) hl
+    | fuel => exact hk fuel hf hl
+  | ok st =>
+    cases hfind : cycFind sims.length st.descs with
+    | some q =>
+      obtain ⟨s, d, _, hreal, hz⟩ := zero_cycle_of_loop hl hfind
+      simp only [hfind]
+      exact ⟨Or.inr ⟨q, rfl⟩, ⟨fun _ => ⟨s, q, d, hreal, hz⟩, fun _ => ⟨q, rfl⟩⟩⟩
+    | none =>
+      simp only [hfind]
+      refine ⟨Or.inl trivial, ⟨?_, ?_⟩⟩
+      · rintro ⟨p, hp⟩
+        exact absurd hp (by simp)
+      · rintro ⟨s, p, d, hreal, hz⟩
+        have := no_zero_cycle_of_loop hS hN hU hl hfind s p d hreal
+        rw [hz] at this
+        cases this
+
 /-! ### the worklist of `cache_triggering_ancestors`
 
 The same descent for the second closure; the table is indexed (destination, ancestor). -/
